@@ -130,8 +130,8 @@ Ltac inv_step H :=
 
 Section CoreInv.
   Variable P : cst -> Prop.
-  Hypothesis P_core : forall s s', core_eq s s' -> P s -> P s'.
-  Hypothesis P_caret4 :
+  Variable P_core : forall s s', core_eq s s' -> P s -> P s'.
+  Variable P_caret4 :
     forall name s s', P s -> set_caret (Some 4%nat) name s = Ok s' -> P s'.
 
   Lemma P_set_open o s : P s -> P (set_open o s).
@@ -419,3 +419,837 @@ Proof.
     cbn [forallb] in Hks |- *. apply andb_true_iff in Hks. destruct Hks as [K1 K2].
     rewrite (Hk K1), (IHr K2). reflexivity.
 Qed.
+
+(* the counterexample, machine-checked: a paragraph-less w:tc with
+   <w:tcPr><w:gridSpan w:val="2"/></w:tcPr> walked at caret depth 4 *)
+Definition cx_env : env :=
+  {| env_x2h := []; env_rels := []; env_dup := false; env_numtbl := [] |}.
+Definition cx_einfo (tag loc : str) (attrs : list (aname * str)) : einfo :=
+  {| e_ptag := tag; e_uri := None; e_local := loc; e_wuri := Some [119]; e_ruri := None;
+     e_attrs := attrs; e_text := None; e_tail := None |}.
+Definition cx_tc : anode :=
+  AE (cx_einfo tag_TABLE_CELL [116;99] [])
+     [AE (cx_einfo [119;58;116;99;80;114] [116;99;80;114] [])
+         [AE (cx_einfo [119;58;103;114;105;100;83;112;97;110] s_gridSpan
+                       [((Some [119], s_val), [50])]) []]].
+Definition cx_st : cst :=
+  {| c_tree := [NL [NL [NL []]]]; c_depth := 4%nat;
+     c_lineage := (Some [116;98;108], Some [116;114], Some [116;99], None);
+     c_open := []; c_queued := []; c_ranges := []; c_counters := [] |}.
+
+Lemma lineage_frame_counterexample :
+  deep_ge 4 cx_tc = true /\ Inv cx_st /\
+  exists s', walk cx_env [] cx_tc cx_st = Ok s' /\
+             slot 3 (c_lineage s') <> slot 3 (c_lineage cx_st).
+Proof.
+  split; [vm_compute; reflexivity|]. split.
+  { unfold Inv, tree_ok, cx_st. cbn. repeat split; lia. }
+  eexists. split; [vm_compute; reflexivity|]. vm_compute. discriminate.
+Qed.
+
+(* ================================================================== *)
+(* L3, L4: what a simple paragraph records                              *)
+(* ================================================================== *)
+Lemma simple_par_core : forall v e ks path s s',
+  simple_par (AE e ks) = true -> walk v path (AE e ks) s = Ok s' ->
+  exists s1 p t,
+    set_caret (Some 4%nat) (Some (e_local e)) s = Ok s1 /\
+    spine_app 4%nat (NP p) (c_tree s1) = Ok t /\ c_tree s' = t /\ c_depth s' = 4%nat /\
+    p_lineage p = (slot 1 (c_lineage s), slot 2 (c_lineage s), slot 3 (c_lineage s),
+                   Some (e_local e)) /\
+    keepl 4 (c_lineage s) (c_lineage s').
+Proof.
+  intros v e ks path s s' Hsp H.
+  cbn [simple_par] in Hsp. apply andb_true_iff in Hsp. destruct Hsp as [Ht Hks].
+  pose proof (proj1 (str_eqb_eq _ _) Ht) as Htag.
+  assert (Hd : elem_depth (AE e ks) = Some 4%nat).
+  { unfold elem_depth. rewrite min_par_depth_AE, Htag. reflexivity. }
+  rewrite walk_AE in H. cbv zeta in H. rewrite Hd in H.
+  bind_inv H as s1 E1. exists s1.
+  pose proof (set_caret_frame _ _ _ _ E1) as (_ & _ & D1 & _).
+  pose proof (set_caret_lin _ _ _ _ E1) as [_ L1].
+  rewrite Htag in H. change (str_eqb tag_PARAGRAPH tag_HYPERLINK) with false in H.
+  cbv iota in H. cbn [bind] in H.
+  bind_inv H as s2r Eo. destruct s2r as [s2 rec].
+  unfold open_tag in Eo. cbv zeta in Eo. rewrite Ht in Eo.
+  bind_inv Eo as s1b Ecp.
+  destruct (get_par_number (to_numtable v) (c_counters s1b) (get_bullet_fmt (AE e ks)))
+    as [cs number] eqn:Epn.
+  bind_inv Eo as bl Ebl. bind_inv Eo as s2a Eins.
+  destruct (c_open s2a) as [|p2 rest2] eqn:Eo2; [discriminate Eo|]. injection Eo as <- <-.
+  (* commence_paragraph *)
+  unfold commence_paragraph, par_depth in Ecp.
+  bind_inv Ecp as s1a Ec1. bind_inv Ecp as hs Ehs. bind_inv Ecp as pst Epst.
+  cbv zeta in Ecp. injection Ecp as <-.
+  pose proof (set_caret_lin _ _ _ _ Ec1) as [N1a L1a].
+  destruct (set_caret_at_depth _ _ _ _ D1 Ec1) as [l1a ->].
+  (* the list marker *)
+  match type of Eins with insert_text_as_new_run _ _ ?st = _ =>
+    destruct (realizes_inv _ _ st _ _ _ (realizes_insert v (raw bl))
+                (eq_refl : c_open st = _ :: _) Eins)
+      as (em0 & rs0 & Eem0 & -> & T0)
+  end.
+  cbn [c_open set_open] in Eo2. injection Eo2 as <- <-.
+  (* the children *)
+  bind_inv H as s3 Ek.
+  match type of Ek with kids_loop _ _ _ _ ?st = _ =>
+    destruct (realizes_inv _ _ _ _ _ _
+                (kids_loop_realizes v path ks (plain_kids_realizable v ks Hks) O)
+                (eq_refl : c_open st = _ :: _) Ek)
+      as (em & rs3 & Eem & -> & T3)
+  end.
+  (* conclude_paragraph *)
+  bind_inv H as s4 Ec. unfold close_tag in Ec. cbv zeta in Ec. rewrite Ht in Ec.
+  unfold conclude_paragraph, par_depth in Ec. cbn [c_open set_open] in Ec.
+  bind_inv Ec as s3a Ec3. bind_inv Ec as t Et. injection Ec as <-.
+  pose proof (set_caret_lin _ _ _ _ Ec3) as [_ L3].
+  apply set_caret_at_depth in Ec3; [|exact D1]. destruct Ec3 as [l3 ->].
+  pose proof (set_caret_lin _ _ _ _ H) as [_ L4].
+  apply set_caret_at_depth in H; [|exact D1]. destruct H as [l4 ->].
+  cbn [c_tree c_depth c_lineage set_tree set_lin set_open set_counters set_queued] in *.
+  eexists. exists t. split; [reflexivity|]. split; [exact Et|].
+  split; [reflexivity|]. split; [exact D1|]. split.
+  - cbn [p_lineage with_runs with_listpos].
+    rewrite (lineage_eta l1a), N1a, !(L1a _), !(L1 _) by discriminate. reflexivity.
+  - eapply keepl_trans; [|exact L4]. eapply keepl_trans; [|exact L3].
+    eapply keepl_trans; [exact L1|exact L1a].
+Qed.
+
+Lemma simple_par_lineage : forall v e ks path s s' ps,
+  simple_par (AE e ks) = true -> Inv s -> walk v path (AE e ks) s = Ok s' ->
+  pars_at 4%nat (c_tree s) = Ok ps ->
+  exists p, pars_at 4%nat (c_tree s') = Ok (ps ++ [p]) /\
+    p_lineage p = (slot 1 (c_lineage s), slot 2 (c_lineage s), slot 3 (c_lineage s),
+                   Some (e_local e)).
+Proof.
+  intros v e ks path s s' ps Hsp Hs H Hps.
+  destruct (simple_par_core _ _ _ _ _ _ Hsp H) as (s1 & p & t & E1 & Et & Ht & _ & Lp & _).
+  exists p. split; [|exact Lp]. rewrite Ht.
+  apply (spine_app_NP_pars 3%nat p (c_tree s1) t ps Et).
+  eapply set_caret_pars; [exact Hs| |exact E1|exact Hps]. lia.
+Qed.
+
+Lemma free_par_no_tbl : forall v e ks path s s' ps,
+  simple_par (AE e ks) = true -> Inv s -> walk v path (AE e ks) s = Ok s' ->
+  pars_at 4%nat (c_tree s) = Ok ps ->
+  slot 1 (c_lineage s) <> Some [116;98;108] ->
+  exists p, pars_at 4%nat (c_tree s') = Ok (ps ++ [p]) /\
+    slot 1 (p_lineage p) <> Some [116;98;108].
+Proof.
+  intros v e ks path s s' ps Hsp Hs H Hps Hn.
+  destruct (simple_par_lineage _ _ _ _ _ _ _ Hsp Hs H Hps) as (p & Hp & Lp).
+  exists p. split; [exact Hp|]. rewrite Lp. exact Hn.
+Qed.
+
+(* ================================================================== *)
+(* L5: flat tables                                                      *)
+(* ================================================================== *)
+Definition no_par (t : anode) : bool := plain_inline t.
+Definition flat_cell (t : anode) : bool :=
+  match t with
+  | AE e ks => str_eqb (e_ptag e) tag_TABLE_CELL
+               && forallb (fun k => simple_par k || no_par k) ks && existsb simple_par ks
+  | AX _ => false
+  end.
+Definition flat_row (t : anode) : bool :=
+  match t with
+  | AE e ks => str_eqb (e_ptag e) tag_TABLE_ROW
+               && forallb (fun k => flat_cell k || no_par k) ks && existsb flat_cell ks
+  | AX _ => false
+  end.
+Definition flat_tbl (t : anode) : bool :=
+  match t with
+  | AE e ks => str_eqb (e_ptag e) tag_TABLE
+               && forallb (fun k => flat_row k || no_par k) ks && existsb flat_row ks
+  | AX _ => false
+  end.
+
+Lemma mpd_list_flat (A : anode -> bool) n : forall ks,
+  (forall k, A k = true -> min_par_depth k = Some n) ->
+  forallb (fun k => A k || no_par k) ks = true -> existsb A ks = true ->
+  mpd_list ks = Some n.
+Proof.
+  intros ks HA. induction ks as [|k r IH]; intros Hf He; [discriminate He|].
+  cbn [forallb existsb mpd_list] in *.
+  apply andb_true_iff in Hf. destruct Hf as [F1 F2].
+  assert (Hr : mpd_list r = Some n \/ mpd_list r = None).
+  { destruct (existsb A r) eqn:Er; [left; apply IH; auto|right].
+    clear - F2 Er. induction r as [|x r IHr]; [reflexivity|].
+    cbn [forallb existsb mpd_list] in *.
+    apply andb_true_iff in F2. destruct F2 as [G1 G2].
+    apply orb_false_iff in Er. destruct Er as [Ex Er]. rewrite Ex in G1. cbn [orb] in G1.
+    unfold no_par in G1. rewrite (plain_inline_no_par _ G1), (IHr Er G2). reflexivity. }
+  destruct (A k) eqn:Ak.
+  - rewrite (HA _ Ak). destruct Hr as [-> | ->]; cbn [omin]; [rewrite Nat.min_id|]; reflexivity.
+  - cbn [orb] in F1, He. unfold no_par in F1. rewrite (plain_inline_no_par _ F1).
+    destruct Hr as [Hr|Hr]; [rewrite Hr; reflexivity|].
+    rewrite (IH F2 He) in Hr. discriminate Hr.
+Qed.
+
+Lemma simple_par_mpd t : simple_par t = true -> min_par_depth t = Some 0%nat.
+Proof.
+  destruct t as [e ks|tl]; [|discriminate]. cbn [simple_par]. intro H.
+  apply andb_true_iff in H. destruct H as [H _]. rewrite min_par_depth_AE, H. reflexivity.
+Qed.
+
+Lemma flat_cell_mpd t : flat_cell t = true -> min_par_depth t = Some 1%nat.
+Proof.
+  destruct t as [e ks|tl]; [|discriminate]. cbn [flat_cell]. intro H.
+  apply andb_true_iff in H. destruct H as [H He].
+  apply andb_true_iff in H. destruct H as [Ht Hf].
+  apply str_eqb_eq in Ht. rewrite min_par_depth_AE, Ht.
+  change (str_eqb tag_TABLE_CELL tag_PARAGRAPH) with false. cbv iota.
+  rewrite (mpd_list_flat simple_par 0%nat ks simple_par_mpd Hf He). reflexivity.
+Qed.
+
+Lemma flat_row_mpd t : flat_row t = true -> min_par_depth t = Some 2%nat.
+Proof.
+  destruct t as [e ks|tl]; [|discriminate]. cbn [flat_row]. intro H.
+  apply andb_true_iff in H. destruct H as [H He].
+  apply andb_true_iff in H. destruct H as [Ht Hf].
+  apply str_eqb_eq in Ht. rewrite min_par_depth_AE, Ht.
+  change (str_eqb tag_TABLE_ROW tag_PARAGRAPH) with false. cbv iota.
+  rewrite (mpd_list_flat flat_cell 1%nat ks flat_cell_mpd Hf He). reflexivity.
+Qed.
+
+Lemma flat_tbl_mpd t : flat_tbl t = true -> min_par_depth t = Some 3%nat.
+Proof.
+  destruct t as [e ks|tl]; [|discriminate]. cbn [flat_tbl]. intro H.
+  apply andb_true_iff in H. destruct H as [H He].
+  apply andb_true_iff in H. destruct H as [Ht Hf].
+  apply str_eqb_eq in Ht. rewrite min_par_depth_AE, Ht.
+  change (str_eqb tag_TABLE tag_PARAGRAPH) with false. cbv iota.
+  rewrite (mpd_list_flat flat_row 2%nat ks flat_row_mpd Hf He). reflexivity.
+Qed.
+
+Lemma flat_cell_depth t : flat_cell t = true -> elem_depth t = Some 3%nat.
+Proof.
+  intro H. pose proof (flat_cell_mpd t H) as Hm.
+  destruct t as [e ks|tl]; [|discriminate]. cbn [flat_cell] in H.
+  apply andb_true_iff in H. destruct H as [H _]. apply andb_true_iff in H. destruct H as [Ht _].
+  apply str_eqb_eq in Ht. unfold elem_depth. rewrite Hm, Ht. reflexivity.
+Qed.
+
+Lemma flat_row_depth t : flat_row t = true -> elem_depth t = Some 2%nat.
+Proof.
+  intro H. pose proof (flat_row_mpd t H) as Hm.
+  destruct t as [e ks|tl]; [|discriminate]. cbn [flat_row] in H.
+  apply andb_true_iff in H. destruct H as [H _]. apply andb_true_iff in H. destruct H as [Ht _].
+  apply str_eqb_eq in Ht. unfold elem_depth. rewrite Hm, Ht. reflexivity.
+Qed.
+
+Lemma flat_tbl_depth t : flat_tbl t = true -> elem_depth t = Some 1%nat.
+Proof.
+  intro H. pose proof (flat_tbl_mpd t H) as Hm.
+  destruct t as [e ks|tl]; [|discriminate]. cbn [flat_tbl] in H.
+  apply andb_true_iff in H. destruct H as [H _]. apply andb_true_iff in H. destruct H as [Ht _].
+  apply str_eqb_eq in Ht. unfold elem_depth. rewrite Hm, Ht. reflexivity.
+Qed.
+
+Lemma flat_depths : forall t,
+  (flat_cell t = true -> elem_depth t = Some 3%nat) /\
+  (flat_row t = true -> elem_depth t = Some 2%nat) /\
+  (flat_tbl t = true -> elem_depth t = Some 1%nat).
+Proof.
+  intro t. split; [apply flat_cell_depth|]. split; [apply flat_row_depth|apply flat_tbl_depth].
+Qed.
+
+Definition cell_par_ok (p : par) : Prop :=
+  (exists x, p_lineage p = (Some [116;98;108], Some [116;114], Some [116;99], Some x))
+  \/ p_lineage p = (Some [], Some [], Some [], Some []).
+
+(* every paragraph at or below a node satisfies Q *)
+Fixpoint nall (Q : par -> Prop) (n : node) : Prop :=
+  match n with
+  | NP p => Q p
+  | NL l => (fix all (l : list node) : Prop :=
+               match l with [] => True | x :: r => nall Q x /\ all r end) l
+  end.
+
+Lemma nall_NL Q : forall l, nall Q (NL l) <-> Forall (nall Q) l.
+Proof.
+  induction l as [|x l IH].
+  - cbn. split; intros; [constructor|exact I].
+  - change (nall Q (NL (x :: l))) with (nall Q x /\ nall Q (NL l)).
+    rewrite IH. split.
+    + intros [H1 H2]. constructor; assumption.
+    + intros H. inversion H; subst. split; assumption.
+Qed.
+
+Definition okn : node -> Prop := nall cell_par_ok.
+
+Lemma okn_NL l : okn (NL l) <-> Forall okn l.
+Proof. apply nall_NL. Qed.
+
+Lemma okn_nil : okn (NL []).
+Proof. apply okn_NL. constructor. Qed.
+
+Lemma okn_empty_cell : okn (NL [NP new_empty_par]).
+Proof. apply okn_NL. constructor; [|constructor]. right. reflexivity. Qed.
+
+Lemma copy_node_okn : forall n, okn n -> okn (copy_node n).
+Proof.
+  induction n as [p|l IH] using TokFacts.node_ind'; intros H.
+  - exact H.
+  - cbn [copy_node]. apply okn_NL. apply okn_NL in H.
+    induction IH as [|x l Hx Hl IHl]; [constructor|].
+    inversion H; subst. cbn [map]. constructor; auto.
+Qed.
+
+Lemma spine_app_okn : forall d x l l',
+  spine_app d x l = Ok l' -> okn x -> Forall okn l -> Forall okn l'.
+Proof.
+  induction d as [|d IH]; intros x l l' H Hx Hl; [discriminate H|].
+  destruct d as [|d'].
+  - cbn in H. injection H as <-. constructor; assumption.
+  - cbn [spine_app] in H. destruct l as [|n rest]; [discriminate H|].
+    destruct n as [l0|p]; [|discriminate H].
+    bind_inv H as l2 E. injection H as <-.
+    inversion Hl; subst. constructor; [|assumption].
+    apply okn_NL. eapply IH; [exact E|exact Hx|]. apply okn_NL. assumption.
+Qed.
+
+Lemma pars_at_okn : forall d l ps,
+  pars_at d l = Ok ps -> Forall okn l -> Forall cell_par_ok ps.
+Proof.
+  induction d as [|d IH]; intros l ps H Hl; [discriminate H|].
+  destruct d as [|d'].
+  - cbn [pars_at] in H.
+    eapply mapM_Forall; [|exact H|apply Forall_rev'; exact Hl].
+    intros x y Hx Hy. destruct x as [l0|p]; [discriminate Hy|].
+    injection Hy as <-. exact Hx.
+  - rewrite pars_at_SS in H. bind_inv H as xs E. injection H as <-.
+    apply Forall_concat'.
+    eapply mapM_Forall; [|exact E|apply Forall_rev'; exact Hl].
+    intros x y Hx Hy. cbv beta in Hy. destruct x as [l0|p]; [|discriminate Hy].
+    eapply IH; [exact Hy|]. apply okn_NL. exact Hx.
+Qed.
+
+Lemma mapM_total {A B} (f : A -> res B) : forall l,
+  (forall x, In x l -> exists y, f x = Ok y) -> exists ys, mapM f l = Ok ys.
+Proof.
+  induction l as [|x l IH]; intro H; [exists []; reflexivity|].
+  destruct (H x (or_introl eq_refl)) as [y Ey].
+  destruct IH as [ys Eys]; [intros z Hz; apply H; right; exact Hz|].
+  exists (y :: ys). cbn [mapM]. rewrite Ey. cbn [bind]. rewrite Eys. reflexivity.
+Qed.
+
+(* a well-shaped tree can be read back *)
+Lemma shape_pars_at : forall d k l, (d + k = 5)%nat -> (1 <= d)%nat ->
+  forallb (shapeb k) l = true -> exists ps, pars_at d l = Ok ps.
+Proof.
+  induction d as [|d IH]; intros k l Hk Hd Hl; [lia|].
+  destruct d as [|d'].
+  - cbn [pars_at].
+    apply mapM_total. intros x Hx. apply in_rev in Hx.
+    pose proof (proj1 (forallb_forall _ _) Hl _ Hx) as Sx.
+    destruct x as [l0|p]; [|eauto].
+    assert (k = 4%nat) by lia. subst k. cbn in Sx. discriminate Sx.
+  - rewrite pars_at_SS.
+    destruct (mapM_total (fun n => match n with
+                                   | NL l' => pars_at (S d') l'
+                                   | NP _ => Err TypeError
+                                   end) (rev l)) as [xs Exs].
+    { intros x Hx. apply in_rev in Hx.
+      pose proof (proj1 (forallb_forall _ _) Hl _ Hx) as Sx.
+      destruct x as [l0|p].
+      - rewrite shapeb_NL in Sx. apply andb_true_iff in Sx. destruct Sx as [_ Sx].
+        apply (IH (S k)); [lia|lia|exact Sx].
+      - cbn in Sx. apply Nat.eqb_eq in Sx. lia. }
+    rewrite Exs. cbn [bind]. eauto.
+Qed.
+
+Lemma pars_at_cons_head tbl old ps new :
+  pars_at 4%nat old = Ok ps -> pars_at 3%nat tbl = Ok new ->
+  pars_at 4%nat (NL tbl :: old) = Ok (ps ++ new).
+Proof.
+  intros Ho Ht. rewrite pars_at_SS in Ho |- *. cbn [rev].
+  bind_inv Ho as xs Exs. injection Ho as <-.
+  rewrite (mapM_app_ok _ _ _ xs [new] Exs).
+  2:{ cbn [mapM]. rewrite Ht. reflexivity. }
+  cbn [bind]. rewrite concat_app. cbn [concat]. rewrite app_nil_r. reflexivity.
+Qed.
+
+(* ---------- the table under construction is the head of the root ---------- *)
+Definition in_tbl (old : list node) (s : cst) : Prop :=
+  (2 <= c_depth s)%nat /\ exists tbl, c_tree s = NL tbl :: old /\ Forall okn tbl.
+Definition tinv (old : list node) (s : cst) : Prop :=
+  (c_depth s = 1%nat /\ c_tree s = old) \/ in_tbl old s.
+
+Lemma in_tbl_core old s s' : core_eq s s' -> in_tbl old s -> in_tbl old s'.
+Proof. intros (T & D & _) H. unfold in_tbl. rewrite T, D. exact H. Qed.
+
+Lemma tinv_core old s s' : core_eq s s' -> tinv old s -> tinv old s'.
+Proof.
+  intros C [H|H]; [left|right; eapply in_tbl_core; eauto].
+  destruct C as (T & D & _). rewrite T, D. exact H.
+Qed.
+
+Lemma spine_app_head d x tbl old t :
+  spine_app (S (S d)) x (NL tbl :: old) = Ok t -> okn x -> Forall okn tbl ->
+  exists tbl', t = NL tbl' :: old /\ Forall okn tbl'.
+Proof.
+  intros H Hx Ht. rewrite spine_app_SS in H. bind_inv H as tbl' E. injection H as <-.
+  exists tbl'. split; [reflexivity|]. eapply spine_app_okn; eauto.
+Qed.
+
+Lemma in_tbl_pars old s ps :
+  Inv s -> in_tbl old s -> pars_at 4%nat old = Ok ps ->
+  exists new, pars_at 4%nat (c_tree s) = Ok (ps ++ new) /\ Forall cell_par_ok new.
+Proof.
+  intros (T & _) (_ & tbl & E & Hok) Hps. rewrite E in T |- *.
+  unfold tree_ok in T. cbn [forallb] in T. apply andb_true_iff in T. destruct T as [T _].
+  rewrite shapeb_NL in T. apply andb_true_iff in T. destruct T as [_ T].
+  destruct (shape_pars_at 3%nat 2%nat tbl) as [new Hn]; [lia|lia|exact T|].
+  exists new. split; [apply pars_at_cons_head; assumption|].
+  eapply pars_at_okn; eauto.
+Qed.
+
+Lemma drop_caret_tinv old s s' : tinv old s -> drop_caret s = Ok s' -> in_tbl old s'.
+Proof.
+  intros Hs H. unfold drop_caret in H.
+  destruct (Nat.leb par_depth (c_depth s)); [discriminate H|].
+  bind_inv H as t Et. injection H as <-. unfold in_tbl. cbn [c_depth c_tree set_depth set_tree].
+  destruct Hs as [[D T]|(D & tbl & T & Hok)].
+  - rewrite D, T in Et. cbn in Et. injection Et as <-. rewrite D.
+    split; [lia|]. exists []. split; [reflexivity|constructor].
+  - split; [lia|]. rewrite T in Et.
+    destruct (c_depth s) as [|[|d]]; try lia.
+    destruct (spine_app_head _ _ _ _ _ Et okn_nil Hok) as (tbl' & -> & Hok').
+    exists tbl'. auto.
+Qed.
+
+Lemma raise_caret_in_tbl old s s' :
+  in_tbl old s -> (3 <= c_depth s)%nat -> raise_caret s = Ok s' -> in_tbl old s'.
+Proof.
+  intros (D & Hs) D3 H. unfold raise_caret in H.
+  destruct (Nat.leb (c_depth s) 1); [discriminate H|]. injection H as <-.
+  split; [cbn; lia|exact Hs].
+Qed.
+
+Lemma set_caret_go_tinv old : forall fuel d name s s', (2 <= d)%nat ->
+  tinv old s -> set_caret_go fuel d name s = Ok s' -> in_tbl old s'.
+Proof.
+  induction fuel as [|f IH]; intros d name s s' Hd Hs H; [discriminate H|].
+  cbn [set_caret_go] in H.
+  destruct (Nat.eqb_spec (c_depth s) d) as [E|E].
+  - bind_inv H as l El. injection H as <-.
+    destruct Hs as [[D _]|Hs]; [lia|]. exact Hs.
+  - destruct (Nat.ltb_spec (c_depth s) d) as [L|L].
+    + bind_inv H as s1 E1. eapply IH; [exact Hd| |exact H].
+      right. eapply drop_caret_tinv; eauto.
+    + bind_inv H as l El. bind_inv H as s1 E1. eapply IH; [exact Hd| |exact H].
+      right. destruct Hs as [[D _]|Hs]; [lia|].
+      apply (raise_caret_in_tbl old (set_lin l s) s1); [exact Hs|cbn; lia|exact E1].
+Qed.
+
+Lemma set_caret_tinv old d name s s' : (2 <= d)%nat ->
+  tinv old s -> set_caret (Some d) name s = Ok s' -> in_tbl old s'.
+Proof. apply set_caret_go_tinv. Qed.
+
+Lemma set_caret_Inv d name s s' : (1 <= d <= 4)%nat -> Inv s ->
+  set_caret (Some d) name s = Ok s' -> Inv s' /\ c_depth s' = d.
+Proof.
+  intros Hd Hs H. destruct (set_caret_inv d name s Hd Hs) as (s'' & E & I1 & D1 & _).
+  rewrite H in E. injection E as <-. auto.
+Qed.
+
+(* ---------- close_table_cell edits the head table only ---------- *)
+Lemma py_get_at_head {A} (x : A) l : py_get (x :: l) (length l) = Some x.
+Proof.
+  unfold py_get. cbn [length].
+  destruct (Nat.leb_spec (S (length l)) (length l)) as [L|L]; [lia|].
+  replace (S (length l) - 1 - length l)%nat with 0%nat by lia. reflexivity.
+Qed.
+
+Lemma py_upd_at_head {A} (x : A) l f l' :
+  py_upd (x :: l) (length l) f = Ok l' -> exists y, f x = Ok y /\ l' = y :: l.
+Proof.
+  unfold py_upd. cbn [length].
+  destruct (Nat.leb_spec (S (length l)) (length l)) as [L|L]; [lia|].
+  replace (S (length l) - 1 - length l)%nat with 0%nat by lia. cbn [upd_nth].
+  intro H. bind_inv H as y Ey. injection H as <-. eauto.
+Qed.
+
+Lemma upd_row_head tbl old ri f root' :
+  upd_row (NL tbl :: old) (length old) ri f = Ok root' ->
+  (forall cs cs', Forall okn cs -> f cs = Ok cs' -> Forall okn cs') ->
+  Forall okn tbl -> exists tbl', root' = NL tbl' :: old /\ Forall okn tbl'.
+Proof.
+  intros H Hf Hok. unfold upd_row in H. apply py_upd_at_head in H.
+  destruct H as (y & Ey & ->). cbn [as_list bind] in Ey.
+  bind_inv Ey as rows' E2. injection Ey as <-.
+  exists rows'. split; [reflexivity|].
+  eapply py_upd_ok; [|exact Hok|exact E2].
+  intros r r' Hr Hr'. cbv beta in Hr'.
+  bind_inv Hr' as cells E3. bind_inv Hr' as c' E4. injection Hr' as <-.
+  apply okn_NL. eapply Hf; [|exact E4].
+  destruct r as [l0|p0]; [|discriminate E3]. injection E3 as <-. apply okn_NL. exact Hr.
+Qed.
+
+Lemma close_table_cell_in_tbl old v e ks s s' :
+  in_tbl old s -> close_table_cell v e ks s = Ok s' -> in_tbl old s'.
+Proof.
+  intros Hs H. unfold close_table_cell in H.
+  bind_inv H as pr Epr. cbv zeta in H.
+  bind_inv H as rows0 Erows0. bind_inv H as dummy Edummy.
+  assert (Eti : (length (c_tree s) - 1 = length old)%nat).
+  { destruct Hs as (_ & tbl & T & _). rewrite T. cbn [length]. lia. }
+  rewrite Eti in H.
+  bind_inv H as s1 Es1. bind_inv H as span Espan.
+  assert (Hs1 : in_tbl old s1).
+  { clear H Espan.
+    match type of Es1 with (if ?c then _ else _) = _ => destruct c end.
+    - bind_inv Es1 as sa Esa. bind_inv Es1 as t Et. bind_inv Es1 as rows Er.
+      bind_inv Es1 as prev Ep. bind_inv Es1 as cells Ec. cbv zeta in Es1.
+      assert (Ha : in_tbl old sa).
+      { eapply (set_caret_tinv old 3%nat); [lia|right; exact Hs|exact Esa]. }
+      destruct cells as [|cell0 cells0]; [injection Es1 as <-; exact Ha|].
+      destruct (py_nth (rev prev) (Z.of_nat (length (cell0 :: cells0)) - 1)) as [src|] eqn:En;
+        [|injection Es1 as <-; exact Ha].
+      bind_inv Es1 as root' Eroot. injection Es1 as <-.
+      destruct Ha as (Da & tbla & Ta & Hoka).
+      rewrite Ta in Et, Eroot. rewrite py_get_at_head in Et. cbn in Et. injection Et as <-.
+      cbn in Er. injection Er as <-.
+      assert (Hprev : Forall okn prev).
+      { destruct tbla as [|r0 [|p0 rows]]; try discriminate Ep.
+        destruct p0 as [l0|p0]; [|discriminate Ep]. injection Ep as <-.
+        inversion Hoka as [|? ? _ Hr]; subst. inversion Hr; subst.
+        apply okn_NL. assumption. }
+      assert (Hsrc : okn src).
+      { apply py_nth_In in En. apply in_rev in En.
+        exact (proj1 (Forall_forall _ _) Hprev _ En). }
+      destruct (upd_row_head _ _ _ _ _ Eroot) as (tbl' & -> & Hok').
+      + intros cs cs' Hcs Hcs'. destruct cs as [|c0 r]; [discriminate Hcs'|].
+        injection Hcs' as <-. inversion Hcs; subst.
+        constructor; [apply copy_node_okn; exact Hsrc|assumption].
+      + exact Hoka.
+      + split; [exact Da|]. exists tbl'. auto.
+    - injection Es1 as <-. exact Hs. }
+  clear Es1 Espan Hs. revert s1 Hs1 H. generalize (Z.to_nat (span - 1)).
+  induction n as [|n IH]; intros s1 Hs1 H.
+  - injection H as <-. exact Hs1.
+  - cbn [bind] in H. bind_inv H as sa Esa. bind_inv H as root' Eroot.
+    eapply IH; [|exact H]. clear IH H.
+    assert (Ha : in_tbl old sa).
+    { eapply (set_caret_tinv old 3%nat); [lia|right; exact Hs1|exact Esa]. }
+    destruct Ha as (Da & tbla & Ta & Hoka). rewrite Ta in Eroot.
+    destruct (upd_row_head _ _ _ _ _ Eroot) as (tbl' & -> & Hok').
+    + intros cs cs' Hcs Hcs'. cbv beta in Hcs'. destruct (env_dup v).
+      * destruct cs as [|c0 r]; [discriminate Hcs'|].
+        injection Hcs' as <-. inversion Hcs; subst.
+        constructor; [apply copy_node_okn; assumption|exact Hcs].
+      * injection Hcs' as <-. constructor; [apply okn_empty_cell|exact Hcs].
+    + exact Hoka.
+    + split; [exact Da|]. exists tbl'. auto.
+Qed.
+
+(* ---------- the walk of a flat table ---------- *)
+Definition s_tbl : str := [116;98;108].
+Definition s_tr : str := [116;114].
+Definition s_tc : str := [116;99].
+
+(* local names as in WordprocessingML for the rows and cells of a table *)
+Definition cell_named (t : anode) : bool :=
+  match t with AE e _ => str_eqb (e_local e) s_tc | AX _ => true end.
+Definition row_named (t : anode) : bool :=
+  match t with
+  | AE e ks => str_eqb (e_local e) s_tr
+               && forallb (fun c => negb (flat_cell c) || cell_named c) ks
+  | AX _ => true
+  end.
+Definition names_ok (t : anode) : bool :=
+  match t with
+  | AE e ks => forallb (fun r => negb (flat_row r) || row_named r) ks
+  | AX _ => true
+  end.
+
+Lemma walk_AE_inv v path e ks s s' :
+  walk v path (AE e ks) s = Ok s' ->
+  exists s1 body s2 b s3 s4,
+    set_caret (elem_depth (AE e ks)) (Some (e_local e)) s = Ok s1 /\
+    open_tag v path (AE e ks) e ks body s1 = Ok (s2, b) /\
+    (if b then kids_loop v path ks O s2 else Ok s2) = Ok s3 /\
+    close_tag v e ks s3 = Ok s4 /\
+    set_caret (elem_depth (AE e ks)) None s4 = Ok s'.
+Proof.
+  intro H. rewrite walk_AE in H. cbv zeta in H.
+  bind_inv H as s1 E1. bind_inv H as body Eb. bind_inv H as s2r Eo.
+  destruct s2r as [s2 b]. bind_inv H as s3 Ek. bind_inv H as s4 Ec.
+  exists s1, body, s2, b, s3, s4. auto.
+Qed.
+
+Lemma kids_loop_inv (R : cst -> Prop) v path : forall ks,
+  (forall k, In k ks -> forall path s s', R s -> walk v path k s = Ok s' -> R s') ->
+  forall i s s', R s -> kids_loop v path ks i s = Ok s' -> R s'.
+Proof.
+  induction ks as [|k r IH]; intros Hk i s s' HR H; cbn [kids_loop] in H.
+  - injection H as <-. exact HR.
+  - bind_inv H as s1 E1. eapply IH; [|eapply Hk; [left; reflexivity|exact HR|exact E1]|exact H].
+    intros k' Hk'. apply Hk. right. exact Hk'.
+Qed.
+
+Lemma in_tbl_caret4 old name s s' :
+  in_tbl old s -> set_caret (Some 4%nat) name s = Ok s' -> in_tbl old s'.
+Proof. intros Hs H. eapply (set_caret_tinv old 4%nat); [lia|right; exact Hs|exact H]. Qed.
+
+Lemma tinv_caret4 old name s s' :
+  tinv old s -> set_caret (Some 4%nat) name s = Ok s' -> tinv old s'.
+Proof. intros Hs H. right. eapply (set_caret_tinv old 4%nat); [lia|exact Hs|exact H]. Qed.
+
+Lemma inline_lineage v t path s s' :
+  plain_inline t = true -> walk v path t s = Ok s' -> keepl 4 (c_lineage s) (c_lineage s').
+Proof.
+  intros Hpl H.
+  apply (inline_P (fun s0 => keepl 4 (c_lineage s) (c_lineage s0))) with (v := v) (t := t)
+                                                                          (path := path) (s := s).
+  - intros s1 s2 (_ & _ & E) K. rewrite E. exact K.
+  - intros name s1 s2 K E. apply set_caret_lin in E. destruct E as [_ E].
+    eapply keepl_trans; eauto.
+  - exact Hpl.
+  - apply keepl_refl.
+  - exact H.
+Qed.
+
+Definition in_cell (old : list node) (s : cst) : Prop :=
+  Inv s /\ in_tbl old s /\ slot 1 (c_lineage s) = Some s_tbl /\
+  slot 2 (c_lineage s) = Some s_tr /\ slot 3 (c_lineage s) = Some s_tc.
+Definition in_row (old : list node) (s : cst) : Prop :=
+  Inv s /\ in_tbl old s /\ slot 1 (c_lineage s) = Some s_tbl /\
+  slot 2 (c_lineage s) = Some s_tr.
+Definition in_table (old : list node) (s : cst) : Prop :=
+  Inv s /\ tinv old s /\ slot 1 (c_lineage s) = Some s_tbl.
+
+Lemma simple_par_in_cell old v k path s s' :
+  simple_par k = true -> in_cell old s -> walk v path k s = Ok s' -> in_cell old s'.
+Proof.
+  intros Hsp (Hi & Ht & L1 & L2 & L3) H.
+  destruct k as [e ks|tl]; [|discriminate Hsp].
+  pose proof (walk_inv _ _ _ _ _ Hi H) as Hi'.
+  destruct (simple_par_core _ _ _ _ _ _ Hsp H) as (s1 & p & t & E1 & Et & Etr & D' & Lp & K).
+  pose proof (in_tbl_caret4 _ _ _ _ Ht E1) as (D1 & tbl1 & T1 & Hok1).
+  rewrite T1 in Et.
+  destruct (spine_app_head _ _ _ _ _ Et) as (tbl' & -> & Hok').
+  { left. exists (e_local e). rewrite Lp, L1, L2, L3. reflexivity. }
+  { exact Hok1. }
+  split; [exact Hi'|]. split.
+  { split; [lia|]. exists tbl'. auto. }
+  rewrite (K 1%nat), (K 2%nat), (K 3%nat) by lia. auto.
+Qed.
+
+Lemma inline_in_cell old v k path s s' :
+  no_par k = true -> in_cell old s -> walk v path k s = Ok s' -> in_cell old s'.
+Proof.
+  intros Hn (Hi & Ht & L1 & L2 & L3) H. unfold no_par in Hn.
+  pose proof (inline_lineage _ _ _ _ _ Hn H) as K.
+  split; [eapply walk_inv; eauto|]. split.
+  - apply (inline_P (in_tbl old) (in_tbl_core old) (in_tbl_caret4 old) v k Hn path s s' Ht H).
+  - rewrite (K 1%nat), (K 2%nat), (K 3%nat) by lia. auto.
+Qed.
+
+Lemma inline_in_row old v k path s s' :
+  no_par k = true -> in_row old s -> walk v path k s = Ok s' -> in_row old s'.
+Proof.
+  intros Hn (Hi & Ht & L1 & L2) H. unfold no_par in Hn.
+  pose proof (inline_lineage _ _ _ _ _ Hn H) as K.
+  split; [eapply walk_inv; eauto|]. split.
+  - apply (inline_P (in_tbl old) (in_tbl_core old) (in_tbl_caret4 old) v k Hn path s s' Ht H).
+  - rewrite (K 1%nat), (K 2%nat) by lia. auto.
+Qed.
+
+Lemma inline_in_table old v k path s s' :
+  no_par k = true -> in_table old s -> walk v path k s = Ok s' -> in_table old s'.
+Proof.
+  intros Hn (Hi & Ht & L1) H. unfold no_par in Hn.
+  pose proof (inline_lineage _ _ _ _ _ Hn H) as K.
+  split; [eapply walk_inv; eauto|]. split.
+  - apply (inline_P (tinv old) (tinv_core old) (tinv_caret4 old) v k Hn path s s' Ht H).
+  - rewrite (K 1%nat) by lia. auto.
+Qed.
+
+(* one cell, walked from a state whose slots 1, 2 are tbl, tr *)
+Lemma flat_cell_lineage old v t path s s' :
+  flat_cell t = true -> cell_named t = true ->
+  in_row old s -> walk v path t s = Ok s' -> in_row old s'.
+Proof.
+  intros Hf Hnm (Hi & Ht & L1 & L2) H.
+  pose proof (flat_cell_depth t Hf) as Hd.
+  destruct t as [e ks|tl]; [|discriminate Hf].
+  cbn [flat_cell] in Hf. apply andb_true_iff in Hf. destruct Hf as [Hf _].
+  apply andb_true_iff in Hf. destruct Hf as [Htag Hks]. apply str_eqb_eq in Htag.
+  cbn [cell_named] in Hnm. apply str_eqb_eq in Hnm.
+  apply walk_AE_inv in H.
+  destruct H as (s1 & body & s2 & b & s3 & s4 & E1 & Eo & Ek & Ec & E5).
+  rewrite Hd in E1, E5.
+  (* open *)
+  assert (C1 : in_cell old s1).
+  { destruct (set_caret_Inv 3%nat _ _ _ ltac:(lia) Hi E1) as [I1 _].
+    pose proof (set_caret_lin _ _ _ _ E1) as [N K].
+    split; [exact I1|]. split.
+    - eapply (set_caret_tinv old 3%nat); [lia|right; exact Ht|exact E1].
+    - rewrite (K 1%nat), (K 2%nat), N, Hnm by lia. auto. }
+  assert (C2 : in_cell old s2).
+  { destruct C1 as (I1 & T1 & A1 & A2 & A3).
+    pose proof (open_tag_lineage _ _ _ _ _ _ _ _ _ Eo) as K.
+    split; [eapply open_tag_inv; eauto|]. split.
+    - apply (open_tag_P (in_tbl old) (in_tbl_core old) (in_tbl_caret4 old) _ _ _ _ _ _ _ _ _ Eo T1).
+    - rewrite (K 1%nat), (K 2%nat), (K 3%nat) by lia. auto. }
+  (* children *)
+  assert (C3 : in_cell old s3).
+  { destruct b; [|injection Ek as <-; exact C2].
+    eapply (kids_loop_inv (in_cell old)); [|exact C2|exact Ek].
+    intros k Hk path' sa sb Ca Hw.
+    pose proof (proj1 (forallb_forall _ _) Hks k Hk) as Hkk.
+    apply orb_true_iff in Hkk. destruct Hkk as [Hkk|Hkk].
+    - eapply simple_par_in_cell; eauto.
+    - eapply inline_in_cell; eauto. }
+  (* close *)
+  destruct C3 as (I3 & T3 & A1 & A2 & A3).
+  pose proof (close_tag_inv _ _ _ _ _ I3 Ec) as I4.
+  unfold close_tag in Ec. cbv zeta in Ec. rewrite Htag in Ec.
+  change (str_eqb tag_TABLE_CELL tag_PARAGRAPH) with false in Ec.
+  change (str_eqb tag_TABLE_CELL tag_RUN) with false in Ec.
+  change (str_eqb tag_TABLE_CELL tag_TABLE_CELL) with true in Ec. cbv iota in Ec.
+  pose proof (close_table_cell_in_tbl _ _ _ _ _ _ T3 Ec) as T4.
+  pose proof (close_table_cell_lineage _ _ _ _ _ Ec) as K4.
+  destruct (set_caret_Inv 3%nat _ _ _ ltac:(lia) I4 E5) as [I5 _].
+  pose proof (set_caret_lin _ _ _ _ E5) as [_ K5].
+  split; [exact I5|]. split.
+  - eapply (set_caret_tinv old 3%nat); [lia|right; exact T4|exact E5].
+  - rewrite (K5 1%nat), (K5 2%nat), (K4 1%nat), (K4 2%nat) by lia. auto.
+Qed.
+
+Lemma flat_row_lineage old v t path s s' :
+  flat_row t = true -> row_named t = true ->
+  in_table old s -> walk v path t s = Ok s' -> in_table old s'.
+Proof.
+  intros Hf Hnm (Hi & Ht & L1) H.
+  pose proof (flat_row_depth t Hf) as Hd.
+  destruct t as [e ks|tl]; [|discriminate Hf].
+  cbn [flat_row] in Hf. apply andb_true_iff in Hf. destruct Hf as [Hf _].
+  apply andb_true_iff in Hf. destruct Hf as [Htag Hks]. apply str_eqb_eq in Htag.
+  cbn [row_named] in Hnm. apply andb_true_iff in Hnm. destruct Hnm as [Hnm Hcn].
+  apply str_eqb_eq in Hnm.
+  apply walk_AE_inv in H.
+  destruct H as (s1 & body & s2 & b & s3 & s4 & E1 & Eo & Ek & Ec & E5).
+  rewrite Hd in E1, E5.
+  assert (C1 : in_row old s1).
+  { destruct (set_caret_Inv 2%nat _ _ _ ltac:(lia) Hi E1) as [I1 _].
+    pose proof (set_caret_lin _ _ _ _ E1) as [N K].
+    split; [exact I1|]. split.
+    - eapply (set_caret_tinv old 2%nat); [lia|exact Ht|exact E1].
+    - rewrite (K 1%nat), N, Hnm by lia. auto. }
+  assert (C2 : in_row old s2).
+  { destruct C1 as (I1 & T1 & A1 & A2).
+    pose proof (open_tag_lineage _ _ _ _ _ _ _ _ _ Eo) as K.
+    split; [eapply open_tag_inv; eauto|]. split.
+    - apply (open_tag_P (in_tbl old) (in_tbl_core old) (in_tbl_caret4 old) _ _ _ _ _ _ _ _ _ Eo T1).
+    - rewrite (K 1%nat), (K 2%nat) by lia. auto. }
+  assert (C3 : in_row old s3).
+  { destruct b; [|injection Ek as <-; exact C2].
+    eapply (kids_loop_inv (in_row old)); [|exact C2|exact Ek].
+    intros k Hk path' sa sb Ca Hw.
+    pose proof (proj1 (forallb_forall _ _) Hks k Hk) as Hkk.
+    pose proof (proj1 (forallb_forall _ _) Hcn k Hk) as Hkn. cbv beta in Hkk, Hkn.
+    apply orb_true_iff in Hkk. destruct Hkk as [Hkk|Hkk].
+    - rewrite Hkk in Hkn. cbn [negb orb] in Hkn. eapply flat_cell_lineage; eauto.
+    - eapply inline_in_row; eauto. }
+  destruct C3 as (I3 & T3 & A1 & A2).
+  pose proof (close_tag_inv _ _ _ _ _ I3 Ec) as I4.
+  assert (Hp : str_eqb (e_ptag e) tag_PARAGRAPH = false) by (rewrite Htag; reflexivity).
+  assert (Hc : str_eqb (e_ptag e) tag_TABLE_CELL = false) by (rewrite Htag; reflexivity).
+  pose proof (close_tag_P (in_tbl old) (in_tbl_core old) (in_tbl_caret4 old)
+                _ _ _ _ _ Hp Hc Ec T3) as T4.
+  pose proof (close_tag_lineage _ _ _ _ _ Ec) as K4.
+  destruct (set_caret_Inv 2%nat _ _ _ ltac:(lia) I4 E5) as [I5 _].
+  pose proof (set_caret_lin _ _ _ _ E5) as [_ K5].
+  split; [exact I5|]. split.
+  - right. eapply (set_caret_tinv old 2%nat); [lia|right; exact T4|exact E5].
+  - rewrite (K5 1%nat), (K4 1%nat) by (try lia; rewrite Hc; discriminate). exact A1.
+Qed.
+
+Lemma flat_tbl_lineage : forall v t path s s' ps,
+  flat_tbl t = true -> Inv s -> walk v path t s = Ok s' ->
+  pars_at 4%nat (c_tree s) = Ok ps ->
+  (forall e ks, t = AE e ks -> e_local e = [116;98;108]) ->
+  names_ok t = true ->
+  exists new, pars_at 4%nat (c_tree s') = Ok (ps ++ new) /\ Forall cell_par_ok new.
+Proof.
+  intros v t path s s' ps Hf Hi H Hps Hnm Hnames.
+  pose proof (flat_tbl_depth t Hf) as Hd.
+  destruct t as [e ks|tl]; [|discriminate Hf].
+  specialize (Hnm e ks eq_refl).
+  cbn [flat_tbl] in Hf. apply andb_true_iff in Hf. destruct Hf as [Hf _].
+  apply andb_true_iff in Hf. destruct Hf as [Htag Hks]. apply str_eqb_eq in Htag.
+  cbn [names_ok] in Hnames.
+  apply walk_AE_inv in H.
+  destruct H as (s1 & body & s2 & b & s3 & s4 & E1 & Eo & Ek & Ec & E5).
+  rewrite Hd in E1, E5.
+  set (old := c_tree s1).
+  assert (Hold : pars_at 4%nat old = Ok ps).
+  { unfold old. eapply set_caret_pars; [exact Hi| |exact E1|exact Hps]. lia. }
+  assert (C1 : in_table old s1).
+  { destruct (set_caret_Inv 1%nat _ _ _ ltac:(lia) Hi E1) as [I1 D1].
+    pose proof (set_caret_lin _ _ _ _ E1) as [N _].
+    split; [exact I1|]. split; [left; split; [exact D1|reflexivity]|].
+    rewrite N, Hnm. reflexivity. }
+  clearbody old.
+  assert (C2 : in_table old s2).
+  { destruct C1 as (I1 & T1 & A1).
+    pose proof (open_tag_lineage _ _ _ _ _ _ _ _ _ Eo) as K.
+    split; [eapply open_tag_inv; eauto|]. split.
+    - apply (open_tag_P (tinv old) (tinv_core old) (tinv_caret4 old) _ _ _ _ _ _ _ _ _ Eo T1).
+    - rewrite (K 1%nat) by lia. exact A1. }
+  assert (C3 : in_table old s3).
+  { destruct b; [|injection Ek as <-; exact C2].
+    eapply (kids_loop_inv (in_table old)); [|exact C2|exact Ek].
+    intros k Hk path' sa sb Ca Hw.
+    pose proof (proj1 (forallb_forall _ _) Hks k Hk) as Hkk.
+    pose proof (proj1 (forallb_forall _ _) Hnames k Hk) as Hkn. cbv beta in Hkk, Hkn.
+    apply orb_true_iff in Hkk. destruct Hkk as [Hkk|Hkk].
+    - rewrite Hkk in Hkn. cbn [negb orb] in Hkn. eapply flat_row_lineage; eauto.
+    - eapply inline_in_table; eauto. }
+  destruct C3 as (I3 & T3 & A1).
+  pose proof (close_tag_inv _ _ _ _ _ I3 Ec) as I4.
+  assert (Hp : str_eqb (e_ptag e) tag_PARAGRAPH = false) by (rewrite Htag; reflexivity).
+  assert (Hc : str_eqb (e_ptag e) tag_TABLE_CELL = false) by (rewrite Htag; reflexivity).
+  pose proof (close_tag_P (tinv old) (tinv_core old) (tinv_caret4 old)
+                _ _ _ _ _ Hp Hc Ec T3) as T4.
+  assert (P4 : exists new, pars_at 4%nat (c_tree s4) = Ok (ps ++ new) /\ Forall cell_par_ok new).
+  { destruct T4 as [[_ T4]|T4].
+    - exists []. rewrite T4, app_nil_r. split; [exact Hold|constructor].
+    - eapply in_tbl_pars; eauto. }
+  destruct P4 as (new & P4 & Hnew). exists new. split; [|exact Hnew].
+  eapply set_caret_pars; [exact I4| |exact E5|exact P4]. lia.
+Qed.
+
+(* non-vacuity: a one-cell table satisfies the hypotheses, and the walk from
+   the initial state produces one paragraph with lineage (tbl, tr, tc, p) *)
+Definition ex_tbl : anode :=
+  AE (cx_einfo tag_TABLE s_tbl [])
+     [AE (cx_einfo tag_TABLE_ROW s_tr [])
+         [AE (cx_einfo tag_TABLE_CELL s_tc [])
+             [AE (cx_einfo tag_PARAGRAPH [112] []) []]]].
+
+Lemma flat_tbl_example :
+  flat_tbl ex_tbl = true /\ names_ok ex_tbl = true /\
+  exists s' p, walk cx_env [] ex_tbl init_cst = Ok s' /\
+               pars_at 4%nat (c_tree s') = Ok [p] /\
+               p_lineage p = (Some s_tbl, Some s_tr, Some s_tc, Some [112]).
+Proof.
+  split; [vm_compute; reflexivity|]. split; [vm_compute; reflexivity|].
+  eexists. eexists. split; [vm_compute; reflexivity|].
+  split; vm_compute; reflexivity.
+Qed.
+
+Print Assumptions set_caret_slots.
+Print Assumptions flat_tbl_example.
+Print Assumptions lineage_frame_partial.
+Print Assumptions lineage_frame_le3.
+Print Assumptions lineage_frame_counterexample.
+Print Assumptions simple_par_lineage.
+Print Assumptions free_par_no_tbl.
+Print Assumptions flat_depths.
+Print Assumptions flat_cell_lineage.
+Print Assumptions flat_row_lineage.
+Print Assumptions flat_tbl_lineage.
